@@ -316,7 +316,7 @@ plus, minus, mult, div = map(pp.Literal, "+-*/")
 
 
 
-def _parse_arithmetic_chain(tokens: pp.ParseResults) -> float:
+def _parse_arithmetic_chain(string: str, location: int, tokens: pp.ParseResults) -> float:
     # tokens[0] is the flat left-associative chain: operand (operator operand)*
     chain = tokens[0]
     result = chain[0]
@@ -324,6 +324,8 @@ def _parse_arithmetic_chain(tokens: pp.ParseResults) -> float:
         if op == "*":
             result = result * operand
         elif op == "/":
+            if operand == 0:
+                raise pp.ParseFatalException(string, location, "division by zero in constant expression")
             result = result / operand
         elif op == "+":
             result = result + operand
@@ -336,8 +338,8 @@ def _parse_arithmetic_chain(tokens: pp.ParseResults) -> float:
 arithmetic_expr = pp.infixNotation(
     floating_point_number,
     [
-        (mult | div, 2, pp.opAssoc.LEFT, lambda s, l, t: _parse_arithmetic_chain(t)),
-        (plus | minus, 2, pp.opAssoc.LEFT, lambda s, l, t: _parse_arithmetic_chain(t)),
+        (mult | div, 2, pp.opAssoc.LEFT, lambda s, l, t: _parse_arithmetic_chain(s, l, t)),
+        (plus | minus, 2, pp.opAssoc.LEFT, lambda s, l, t: _parse_arithmetic_chain(s, l, t)),
     ],
 )
 
